@@ -746,6 +746,10 @@ func c07Run(c *fw.Ctx, i int) {
 			return
 		}
 		tail = 128
+		if sp.ACodec == "" || sp.VCodec == "" {
+			// a single-track stream has nothing to interleave with: no frame may be held back
+			tail = 2
+		}
 	case "customize":
 		variant := (i / 3) % 4
 		jd.desc = fmt.Sprintf("customize variant=%d spec=%+v", variant, sp)
